@@ -16,6 +16,7 @@ import (
 	tikverr "github.com/tikv/client-go/v2/error"
 	"github.com/tikv/client-go/v2/internal/unionstore"
 	"github.com/tikv/client-go/v2/internal/unionstore/arena"
+	artpkg "github.com/tikv/client-go/v2/internal/unionstore/art"
 	"github.com/tikv/client-go/v2/kv"
 	"github.com/tikv/client-go/v2/verifx/vx"
 	"go.uber.org/zap"
@@ -698,10 +699,11 @@ func (t *tree) exec(w []string) string {
 
 type world struct {
 	art, rbt *tree
+	node     *artpkg.VerifNode // one inner node of the radix tree, driven directly (n* ops)
 }
 
 func newWorld(entry, buf uint64) *world {
-	return &world{art: newTree("art", entry, buf), rbt: newTree("rbt", entry, buf)}
+	return &world{art: newTree("art", entry, buf), rbt: newTree("rbt", entry, buf), node: artpkg.VerifNewNode()}
 }
 
 func collapse(a, r string) string {
@@ -717,6 +719,81 @@ func parseLimit(s string) (uint64, bool) {
 	}
 	n, err := strconv.ParseUint(s, 10, 64)
 	return n, err == nil
+}
+
+// nodeOp: the node-container ops (ART only; the red-black tree has no such layer)
+func (wd *world) nodeOp(w []string) string {
+	byteArg := func(i int) (byte, bool) {
+		if i >= len(w) {
+			return 0, false
+		}
+		b, ok := vx.UnHex(w[i])
+		if !ok || len(b) != 1 {
+			return 0, false
+		}
+		return b[0], true
+	}
+	idArg := func(i int) (uint16, bool) {
+		if i >= len(w) {
+			return 0, false
+		}
+		n, err := strconv.ParseUint(w[i], 10, 16)
+		return uint16(n), err == nil
+	}
+	switch w[0] {
+	case "nreset":
+		wd.node = artpkg.VerifNewNode()
+		return "ok"
+	case "nadd":
+		c, ok1 := byteArg(1)
+		id, ok2 := idArg(2)
+		if !ok1 || !ok2 {
+			return "bad-op"
+		}
+		if _, found := wd.node.Find(c); found {
+			return "dup" // addChild requires an absent byte
+		}
+		wd.node.Add(c, id)
+		return fmt.Sprintf("kind=%d num=%d", wd.node.Kind(), wd.node.Num())
+	case "nfind":
+		c, ok := byteArg(1)
+		if !ok {
+			return "bad-op"
+		}
+		if id, found := wd.node.Find(c); found {
+			return strconv.Itoa(id)
+		}
+		return "none"
+	case "nrepl":
+		c, ok1 := byteArg(1)
+		id, ok2 := idArg(2)
+		if !ok1 || !ok2 {
+			return "bad-op"
+		}
+		out := "ok"
+		func() {
+			defer func() {
+				if e := recover(); e != nil {
+					if strings.Contains(fmt.Sprint(e), "replace child failed") {
+						out = "refused"
+					} else {
+						panic(e)
+					}
+				}
+			}()
+			wd.node.Replace(c, id)
+		}()
+		return out
+	case "nlist", "nrlist":
+		ids := wd.node.Children(w[0] == "nrlist")
+		var sb strings.Builder
+		sb.WriteString(strconv.Itoa(len(ids)) + ":")
+		for _, id := range ids {
+			sb.WriteString(" " + strconv.Itoa(id))
+		}
+		return sb.String()
+	}
+	return "bad-op"
 }
 
 func (wd *world) exec(line string) string {
@@ -739,6 +816,8 @@ func (wd *world) exec(line string) string {
 		}
 		*wd = *newWorld(e, b)
 		return "ok"
+	case "nreset", "nadd", "nfind", "nrepl", "nlist", "nrlist":
+		return guard(func() string { return wd.nodeOp(w) })
 	case "iterw":
 		// iterator created, then the nested op, then the iterator is used (ART only: RBT keeps no sequence numbers)
 		if len(w) < 3 {
